@@ -36,6 +36,7 @@ def run(ck, prog):
     ck.attempt(_types, ck, prog)
     ck.attempt(_pair, ck, prog)
     ck.attempt(_ctor, ck, prog)
+    ck.attempt(_ctor_total, ck, prog)
     ck.attempt(_full_shuffle, ck, prog)
     ck.attempt(_swap_rand, ck, prog)
     ck.attempt(_retry_loops, ck, prog)
@@ -356,6 +357,118 @@ def _resolve(f, node, depth=0, stop=()):
             return n
     import copy
     return unparse(T().visit(copy.deepcopy(node)))
+
+
+
+def _ctor_total(ck, prog):
+    """CTOR-total: 'the shuffles and swaps succeed for every sequence' - every move ends by constructing its child with Sequence(new, self.dmax[, pattern]).
+    self.dmax is -1 (not computed yet) or what deltaMax() stored: a maximum of squared deviations, so any number >= 0, and exactly 0 for a sequence
+    without charged residues.  A `raise` in Sequence.__init__ whose guards read that parameter must therefore be unreachable for -1, 0 and a positive
+    value; the guards are folded for these three representatives (comparisons with literals, and/or/not).  A guard that cannot be folded, or a raise
+    inside a loop / try, answers undecided; guards over `seq` alone are C13's business."""
+    f = prog.fn(SEQ, "Sequence.__init__")
+    construct = SEQ_PATH + ":Sequence.__init__"
+    watched = {"dmax"}
+    passes_validate = False
+    for m in MOVES:
+        g = prog.fn(SEQ, "Sequence." + m)
+        for c in ast.walk(g.node):
+            if isinstance(c, ast.Call) and prog.class_of_ctor(g.mod, c) == "Sequence":
+                _callee, b = bind_mod.bind(prog, g, c)
+                if b and "validateSeq" in b and unparse(b["validateSeq"]) != "False":
+                    passes_validate = True
+
+    class Unknown(Exception):
+        pass
+
+    def fold(e, d):
+        if isinstance(e, ast.Constant) and isinstance(e.value, (int, float, bool)) or (isinstance(e, ast.Constant) and e.value is None):
+            return e.value
+        if isinstance(e, ast.Name) and e.id == "dmax":
+            return d
+        if isinstance(e, ast.Name) and e.id == "validateSeq" and not passes_validate:
+            return False
+        if isinstance(e, ast.UnaryOp) and isinstance(e.op, ast.Not):
+            return not fold(e.operand, d)
+        if isinstance(e, ast.UnaryOp) and isinstance(e.op, ast.USub):
+            return -fold(e.operand, d)
+        if isinstance(e, ast.BoolOp):
+            # three-valued: an operand that cannot be folded decides nothing unless the others already do
+            vals = []
+            for v in e.values:
+                try:
+                    vals.append(bool(fold(v, d)))
+                except Unknown:
+                    vals.append(None)
+            if isinstance(e.op, ast.And):
+                if any(v is False for v in vals):
+                    return False
+                if all(v is True for v in vals):
+                    return True
+            else:
+                if any(v is True for v in vals):
+                    return True
+                if all(v is False for v in vals):
+                    return False
+            raise Unknown()
+        if isinstance(e, ast.Compare):
+            left = fold(e.left, d)
+            for op, r in zip(e.ops, e.comparators):
+                right = fold(r, d)
+                if left is None or right is None:
+                    if isinstance(op, (ast.Is, ast.Eq)):
+                        res = left is right
+                    elif isinstance(op, (ast.IsNot, ast.NotEq)):
+                        res = left is not right
+                    else:
+                        raise Unknown()
+                else:
+                    table = {ast.Lt: left < right, ast.LtE: left <= right, ast.Gt: left > right, ast.GtE: left >= right, ast.Eq: left == right, ast.NotEq: left != right}
+                    if type(op) not in table:
+                        raise Unknown()
+                    res = table[type(op)]
+                if not res:
+                    return False
+                left = right
+            return True
+        raise Unknown()
+
+    found = []          # (raise node, [(test, polarity)], simple?)
+
+    def walk(stmts, guards, simple):
+        for st in stmts:
+            if isinstance(st, ast.Raise):
+                found.append((st, list(guards), simple))
+            elif isinstance(st, ast.If):
+                walk(st.body, guards + [(st.test, True)], simple)
+                walk(st.orelse, guards + [(st.test, False)], simple)
+            elif isinstance(st, (ast.For, ast.While, ast.Try, ast.With)):
+                for fld in ("body", "orelse", "finalbody"):
+                    walk(getattr(st, fld, []) or [], guards, False)
+                for h in getattr(st, "handlers", []):
+                    walk(h.body, guards, False)
+    walk(f.body(), [], True)
+    # the parameter must still hold the caller's value where the guards read it
+    rebound = [n for n in ast.walk(f.node) if isinstance(n, ast.Name) and n.id in watched and isinstance(n.ctx, ast.Store)]
+    n = 0
+    for r, guards, simple in found:
+        reads = {x.id for t, _ in guards for x in ast.walk(t) if isinstance(x, ast.Name)} & watched
+        if not reads:
+            continue
+        n += 1
+        ck.shape(simple and not rebound, "Sequence.__init__: a raise guarded by a test of dmax sits in straight-line if/else code and dmax is not re-bound", f.loc(r))
+        reps = ((-1, "-1: delta-max not computed yet (every freshly built object)"), (0, "0: the cached delta-max of a sequence without charged residues"),
+                (0.5, "a positive cached delta-max"))
+        for d, why in reps:
+            try:
+                hit = all(bool(fold(t, d)) == pol for t, pol in guards)
+            except Unknown:
+                raise Undecided("Sequence.__init__: guard of a raise reads dmax in a form lcsa cannot fold (%s)" % " / ".join(unparse(t)[:50] for t, _ in guards), f.loc(r))
+            ck.ob("CTOR-total", construct, not hit, expected="the constructor accepts every dmax a move hands over (self.dmax: -1, or any stored delta-max >= 0)",
+                  found={"raise_guarded_by": [("" if pol else "not ") + unparse(t)[:70] for t, pol in guards], "rejected dmax": why} if hit else "not rejected",
+                  slot="raise@%s:dmax=%s" % (unparse(guards[-1][0])[:40], d), where=f.loc(r),
+                  note="full_shuffle / swapRes / swapRandChargeRes / the block moves all end in Sequence(new, self.dmax): they would raise instead of returning a rearrangement")
+    ck.count("constructor raises guarded by dmax", n)
 
 
 def _full_shuffle(ck, prog):
